@@ -11,11 +11,11 @@ NOTE = ("Trusted base: rustc nightly front end + MIR builder, the flacfacts expo
 
 # id -> (technique, text, design_ref)   (claimed properties)
 CLAIMED = {
-    "C12": ("ERRDISC: type-directed error-discipline analysis of every sink call site in MIR + PREFIX/short-circuit (first consumer of every sink-error Result is `?`/return) + ERRDISC/overwritten (no sink-error Result is reassigned or dropped before it is looked at, path-sensitive) + RESET on the scratch sinks and the C08 write effect (what a frame forwards from a scratch sink counts from the last clear in the same body)",
+    "C12": ("ERRDISC: type-directed error-discipline analysis of every sink call site in MIR + PREFIX/short-circuit (first consumer of every sink-error Result is `?`/return) + ERRDISC/overwritten (no sink-error Result is reassigned or dropped before it is looked at, path-sensitive) + RESET on the scratch sinks and the C08 write effect (what a frame forwards from a scratch sink counts from the last clear in the same body) + LOCKORDER (C10: no reusable storage is re-borrowed on the error path of a sink write)",
             "Every call site producing Result<_, S::Error|OutputError<S>> for a caller-supplied sink S is shown to "
             "propagate the error to the return place; none is unwrapped, swallowed or dead. Exhaustive over call "
             "sites, which is what 'for every k-th sink operation' quantifies over.", "4/C12"),
-    "C06": ("MPT/PAIR path rules over MIR CFGs with role-based anchors and wrapper summaries + ERRDISC in par + WORKERS/non-zero + worker-count dataflow (the non-zero count sizes pool, spawns and stop tokens unmodified) + QUEUE/consumers (one receiving function per protocol channel)",
+    "C06": ("MPT/PAIR path rules over MIR CFGs with role-based anchors and wrapper summaries + ERRDISC in par + WORKERS/non-zero + worker-count dataflow (the non-zero count sizes pool, spawns and stop tokens unmodified) + QUEUE/consumers (one receiving function per protocol channel) + QUEUE/drain (every bounded channel with a blocking sender has a blocking receiver, not only a poll) + the feeder hand-on rule of C05 (a buffer id taken from the pool is enqueued before the next one is taken)",
             "Every return path of the par entry point (incl. every `?` edge) after the worker spawn passes the stop "
             "tokens, the worker joins and the hashing-thread stop+join; the worker returns every popped buffer; no "
             "SourceError/EncodeError is unwrapped or handed to a diverging closure. These are the per-path "
@@ -27,20 +27,20 @@ CLAIMED = {
             "constructed on the Ok edge of verify() or in an unsafe fn, and six violating client programs fail to "
             "compile (twins compile). Decides 'accepts iff in range'; not 'accepted configs never panic'.", "4/C07"),
     "C16": ("CONSTARG + MPT + operand dataflow on the CRC verification sites; ERRDISC on nom::Err; PANICSITE "
-            "enumeration from parser::stream with a per-site SAFE table + FRAMING (frames read until end of input with CRC checks on, no error-swallowing combinator) + IMPLICIT (bounds/overflow/shift/division assertions on the stream-parse path discharged from field widths read, guards, loop ranges and payload bounds; 5 SAFE entries resting on the STREAMINFO invariant)",
+            "enumeration from parser::stream with a per-site SAFE table + FRAMING (frames read until end of input with CRC checks on, no error-swallowing combinator) + IMPLICIT (bounds/overflow/shift/division assertions on the stream-parse path discharged from field widths read, guards, loop ranges and payload bounds; 5 SAFE entries resting on the STREAMINFO invariant); PANICSITE also lists fixed-capacity (heapless) containers filled through FromIterator / Extend, directly or through a generic helper instantiated with one",
             "CRC-8/CRC-16 verification is shown to be unconditional on the stream path, on every Ok path, an "
             "equality of parsed and computed value, spanning the whole header/frame, with degree-8/16 generators "
             "(so every burst <= 8/16 bits is detected); all explicit panic constructs reachable from the stream "
             "parser are enumerated and individually discharged; implicit (arithmetic/index) panics are not decided.",
             "4/C16"),
     "C18": ("PANICSITE (explicit panic constructs from constructors/Verify impls, SAFE table with machine-checked "
-            "premises) + DIVGUARD + CASTCHECK + block-size lower-bound RANGE + RANGE/twos-complement (sample checks are the exact W-bit range) + IMPLICIT (every bounds/overflow/shift/division assertion met while summarising the constructors and Verify impls is discharged from the facts verified on the paths to it)",
+            "premises) + DIVGUARD + CASTCHECK + block-size lower-bound RANGE + RANGE/twos-complement (sample checks are the exact W-bit range) + IMPLICIT (every bounds/overflow/shift/division assertion met while summarising the constructors and Verify impls is discharged from the facts verified on the paths to it); PANICSITE includes fixed-capacity FromIterator / Extend fills",
             "Narrow: every explicit panic construct, every division by a runtime value, every narrowing cast of a "
             "constructor argument and every zero-able block size in the constructor/verify universe is an obligation "
             "that is discharged structurally (dominating `?`-propagated range check) or reported. Overflow/shift/"
             "The serialise->parse identity is not decided; 'exactly the number of bits it reports' is decided by the C08 effect rules (EFFECT write=count_bits, residual nest, UTF-8 length, extra bits), which this check runs as well.", "4/C18"),
     "C17": ("CASTCHECK + PARAMCHECK + dominance ORDER of verification before use + ERRDISC on VerifyError in the "
-            "encoder entry points + SCAN/samples (every Ok path of the sample verification passes the per-channel scan) + ENTRY/non-empty-block",
+            "encoder entry points + SCAN/samples (every Ok path of the sample verification passes the per-channel scan) + ENTRY/non-empty-block + RANGE/block-size-argument (C04: the block_size argument of both stream encoders is verified into 16..=65535 on every Ok path)",
             "Every narrowing cast of a public API argument, every length/byte-width argument of a fill, the "
             "verification-before-use order in the frame and stream entry points and every Result<_, VerifyError> in "
             "the encoder modules is an obligation decided on the MIR (dominating `?`-propagated checks). Hangs and "
@@ -58,21 +58,24 @@ CLAIMED = {
             "the minimum block size (disjunctive rule accepting either repair style). Numeric values are not "
             "decided.", "4/C04"),
     "C10": ("STATE-ENUM over static/type facts + RESET append-before-define typestate (interprocedural, closures "
-            "included) + KEY injectivity slicing + LOCKORDER graph",
+            "included) + STALE-READ first-access analysis (interprocedural: the first access of a call to the elements of a reusable buffer is a write / clear / fill, `resize` does not define the retained prefix) + KEY injectivity slicing incl. control dependence (a key value chosen by a non-discriminant branch) + LOCKORDER graph; quick tier analyses default+decode and default+decode+experimental",
             "The inventory of everything that survives a call is complete (only thread-local reusable storages and "
             "immutable Freeze statics), no reusable buffer is appended to before being cleared/reset/resized, cache "
-            "keys are injective in the lookup parameters, and no storage is re-entered while borrowed. Complete "
-            "overwrite of length-set buffers before reads is not decided.", "4/C10"),
+            "keys are injective in the lookup parameters, no storage is re-entered while borrowed, and the first thing a call does "
+            "with the elements of a reusable buffer is never to read them (an accumulation into, or a read of, what `resize` "
+            "retained from an earlier call is reported with the call chain). That the writes cover every index read later "
+            "is not decided (runtime lengths).", "4/C10"),
     "C11": ("SHIFTGUARD (dominating zero-width guard for `BITS - n` shifts, call-site guards for private helpers) + "
-            "CALLSET + SIBLING + FILLSTATE (storage growth dominated by a read of the word-level fill) + GROWTH/ceil (resize amount = ceil(bits/word) on a full period of the extracted summary) + LENGTH (effect summary of self.bitlength per sink operation = initial + ideal bit count, as linear forms over case leaves) + PADFORMULA + WIDTH/const + WORDCOUNT (storage length = ceil(bit length / word) preserved by every operation, summaries evaluated over offsets x counts x operand types) + TWOC/default (provided write_twoc hands the n-bit two's-complement code to a required method for n in 1..=64) + compile-fail witnesses for the sealed operand traits",
+            "CALLSET + SIBLING + FILLSTATE (storage growth dominated by a read of the word-level fill) + GROWTH/ceil (resize amount = ceil(bits/word) on a full period of the extracted summary) + LENGTH (effect summary of self.bitlength per sink operation = initial + ideal bit count, as linear forms over case leaves) + PADFORMULA + WIDTH/const + WORDCOUNT (storage length = ceil(bit length / word) preserved by every operation, summaries evaluated over offsets x counts x operand types) + TWOC/default (provided write_twoc hands the n-bit two's-complement code to a required method for n in 1..=64) + OPERAND (the mask of write_msbs and the alignment of write_lsbs, extracted by a flow-sensitive backward slice, evaluated for every n in 1..=BITS and every operand width; nothing touches the sink beside that normalisation) + compile-fail witnesses for the sealed operand traits",
             "Narrow: zero-width operands are guarded in every sink implementation, default methods are built only "
             "from required ones, both write_bytes_aligned overrides align first, foreign operand types cannot be "
             "written, and every operation of both in-memory sinks advances the recorded bit length by exactly the "
-            "ideal count (the 'same length' clause). Bit-exactness of the shift/carry arithmetic is numerical and not decided.", "4/C11"),
+            "ideal count (the 'same length' clause), and which operand bits can reach the storage is decided (top-n mask / left "
+            "alignment exact for every n and width). The placement arithmetic after the normalisation (shift by the fill state, carry into the next word) is not decided.", "4/C11"),
     "C20": ("XCFG: normalised MIR fingerprints of the encode/serialise closure compared across feature "
             "configurations + control-dependence obligations on the enumerated gates + (configurations with `par`) the mode-agreement rules of C05, since the feature swaps the single-thread loop for the worker pipeline",
             "The set of bodies reachable from the encode and serialise entry points without entering a gate, and the "
-            "MIR of each, are identical in {} / default+decode (quick) and in all four buildable feature sets "
+            "MIR of each, are identical in {} / default+decode / default+decode+experimental (quick) and in all four buildable feature sets "
             "(thorough); gates are entered only under the config flags verification forces off or that select the "
             "parallel mode. Dependency feature unification is trusted.", "4/C20"),
     "C14": ("SIBLING: symbolic MIR expression shapes of the two Fill methods of FrameBuf/Context/ParContext compared "
@@ -84,7 +87,7 @@ CLAIMED = {
             "bodies (shift (4-BPS)*8, little-endian constructor). Converted values are not decided.", "4/C14"),
     "C15": ("LAYOUT reader<->writer: field-width token sequences of every nom parser (EFFECT engine in reader mode) "
             "vs the event sequence of the matching BitRepr::write + TABLE reader<->writer on all code tables + AGREE "
-            "dataflow (which read feeds which constructor argument) + WIDTH type rule on the decoder accumulator + AGREE/predictor-order on the encoder's construction sites (shared with C02) + ACCEPT/frame (the frame reader's cross-checks evaluated for the sample-size answers the writer emits) + accumulator-width at every instantiation of a generic decode helper",
+            "dataflow (which read feeds which constructor argument) + WIDTH type rule on the decoder accumulator + AGREE/predictor-order on the encoder's construction sites (shared with C02) + ACCEPT/frame (the frame reader's cross-checks evaluated for the sample-size answers the writer emits) + accumulator-width at every instantiation of a generic decode helper + LASTFLAG/maintained (nothing installs metadata blocks behind add_metadata_block, shared with C02)",
             "Reader and writer agree on every field boundary, order and code for STREAMINFO, metadata header, frame "
             "header, all 16/16/8/16 code tables incl. extra bytes, subframe header and type codes with order "
             "formulas, raw samples, LPC parameters, residual (header, per-partition parameter, per-sample shape "
@@ -101,7 +104,7 @@ CLAIMED = {
     "C02": ("TABLE: case-tree summaries of the code-selection functions extracted from MIR and evaluated cell-wise on "
             "the rows of an RFC 9639 oracle + LAYOUT: ordered (width, value) event sequences of the writers (EFFECT "
             "engine) vs the RFC field layout + ORDER/dataflow on alignment and CRC steps + const-evaluated CRC "
-            "generators + AGREE dataflow identity of predictor order / warm-up length",
+            "generators + AGREE dataflow identity of predictor order / warm-up length + AGREE/partition-length (the extracted summary of the partition-order chooser evaluated on a grid: (block size >> order) > warm-up length, RFC 9639 section 9.2.7) + LASTFLAG/maintained (who can change the metadata vector maintains the is-last flags)",
             "Block-size, sample-rate, sample-size, channel and subframe-type codes equal the RFC tables on every row "
             "(uncommon sizes by interval cells, or the whole 16-bit domain of the extracted summary when a predicate "
             "is not an interval test); STREAMINFO / metadata / frame-header / LPC / residual layouts, marker, sync "
@@ -120,7 +123,7 @@ CLAIMED = {
             "width; STREAMINFO carries those fields in the RFC's positions. Digest values are not decided.", "4/C03"),
     "C05": ("TYPE-SHAPE on the collector + PAIR/dataflow in worker and feeder + SIBLING on the frame encoder incl. "
             "STREAMINFO read/write field disjointness + STATE-ENUM/RESET/PLAIN-STATE/KEY (no state survives a frame "
-            "encoding) + worker-count dataflow + SIBLING/block-loop (both block loops hand every block on and stop only on 0 samples or an error) + the C08 EFFECT rules (the modes measure frame sizes differently)",
+            "encoding) + worker-count dataflow + SIBLING/block-loop (both block loops hand every block on, stop only on 0 samples or an error, ask the source for exactly the block_size argument and never consult config.block_size) + STALE-READ (C10) + the C08 EFFECT rules (the modes measure frame sizes differently)",
             "Results are collected in Mutex<BTreeMap<usize,_>> keyed by the frame number and drained in order; number, "
             "buffer and key come from one locked buffer in the worker; the feeder numbers buffers under their lock "
             "with a counter stepping once per enqueue; both modes use the same frame encoder, which reads no "
